@@ -162,6 +162,9 @@ structure Cfg where
   /-- conf.CaseSensitive -/
   cs : Bool
   mapping : Option (List (List Nat × FT))
+  /-- the legacy parser lower-cases range bounds like literals (`singleTermBuilder.caseSensitive`, the repaired code);
+  `false` = bounds are kept as written whatever the configuration (the code before the repair) -/
+  rangeLower : Bool
 
 /-- `parseFulltextSearchFilter(lex, fieldName, t, caseSensitive)` -/
 def fulltextFilter (dp : Bool) (field : List Nat) (t : FT) (cs : Bool) (toks : List LTok) : PRes (Ast Leaf × List LTok) :=
